@@ -51,6 +51,8 @@ func initTuning() {
 // tune handles SEIDS <v>... and TEIDCURSOR <n>.
 func (h *hooks) tune(f []string) {
 	switch f[0] {
+	case "PING": // commands are handled in order: the answer says that everything sent before has taken effect
+		h.send("OK PING")
 	case "SEIDS":
 		seids.mu.Lock()
 		seids.queue = seids.queue[:0]
